@@ -51,6 +51,9 @@ def record(case):
                             bad.append(dict(cls=klass, method=method, n=n, full_output_set_after_construction=toggled, f_value=str(info.f_value)[:60], expected=str(fx)[:60]))
                         if np.size(info.error_estimate) != np.size(val) or np.size(info.final_step) != np.size(val) or not np.all(np.asarray(info.error_estimate) >= 0):
                             bad.append(dict(cls=klass, method=method, n=n, problem='error_estimate / final_step', err=str(info.error_estimate)[:60]))
+    from ndvc.concrete import record_extra_args_cases
+    for klass in sorted({case.get('klass', 'Derivative'), 'Derivative'}):
+        bad += record_extra_args_cases(nd, klass)[1]
     return dict(reproduced=bool(bad), failing=bad[:4])
 
 
@@ -60,7 +63,8 @@ def honesty(case):
     not dominated by rounding noise on the unchanged tree (everything except the F12 class: n = 4 with user steps <= 1e-4)"""
     import numdifftools as nd
     from ndvc.concrete import honesty_cases
-    res = honesty_cases(nd)
+    from ndvc.concrete import honesty_complex_cases
+    res = dict(honesty_cases(nd)); res.update(honesty_complex_cases(nd))
     bad = [dict(case=k, **(v[1] or {})) for k, v in sorted(res.items())
            if not v[0] and not (',n=4,' in k and any(t in k for t in ('step=1e-4', 'step=1e-6', 'step=1e-9', 'step=1e-10')))]
     return dict(reproduced=bool(bad), failing=bad[:4], statement='true error <= fixed multiple of the reported estimate + rounding floor')
@@ -70,7 +74,8 @@ def honesty(case):
 def honesty_concrete(case):
     import numdifftools as nd
     from ndvc.concrete import honesty_cases
-    res = honesty_cases(nd)
+    from ndvc.concrete import honesty_complex_cases
+    res = dict(honesty_cases(nd)); res.update(honesty_complex_cases(nd))
     want = case.get('name')
     bad = [dict(case=k, **(v[1] or {})) for k, v in sorted(res.items()) if not v[0] and (want is None or k == want)]
     return dict(reproduced=bool(bad), failing=bad[:4], statement='|result - exact| <= 100 * error_estimate + 1e-5 * scale * 10**n')
